@@ -5060,9 +5060,16 @@ def fix_if_return(source: str) -> str:
         return True
     return False
     """
+    # Comparisons and negations are True or False. Anything else (a name, a call, and/or) may be
+    # any object, and the if statement only used its truth value.
+    boolean = (ast.Compare, ast.UnaryOp(op=ast.Not))
     replace = "return {{condition}}"
 
-    yield from processing.find_replace(source, find, replace, transaction=0)
+    yield from processing.find_replace(source, find, replace, condition=boolean, transaction=0)
+
+    replace = "return bool({{condition}})"
+
+    yield from processing.find_replace(source, find, replace, transaction=3)
 
     find = """
     if {{condition}}:
@@ -5101,10 +5108,20 @@ def fix_if_assign(source: str) -> str:
     else:
         {{variable}} = False
     """
+    # Comparisons and negations are True or False. Anything else (a name, a call, and/or) may be
+    # any object, and the if statement only used its truth value.
+    boolean = (ast.Compare, ast.UnaryOp(op=ast.Not))
     replace = "{{variable}} = {{condition}}"
 
     yield from _skip_elif_rewrites(
-        source, processing.find_replace(source, find, replace, transaction=0)
+        source,
+        processing.find_replace(source, find, replace, condition=boolean, transaction=0),
+    )
+
+    replace = "{{variable}} = bool({{condition}})"
+
+    yield from _skip_elif_rewrites(
+        source, processing.find_replace(source, find, replace, transaction=3)
     )
 
     find = """
